@@ -224,11 +224,39 @@ pub fn run(ctx: &Ctx) -> i32 {
     for p in parts {
         acc.merge(p);
     }
+    // Long executions: no counter inside the debugger may limit how long a program can run.
+    // (a) 196 613 instructions with 65 536 unpaired calls; (b, thorough) 2^32 + 229 381 instructions.
+    let mut long: Vec<(&str, String, Vec<&str>, u64)> = vec![("65536-linking-jumps", linking_jumps().text, vec!["step;quit", "step", "continue;quit", "step out;step;quit", "step into 60000;step;continue"], 60)];
+    if thorough {
+        long.push(("more-than-2^32-instructions", COUNT_OVERFLOW.to_string(), vec!["continue;quit", "step into 60000;continue"], 1500));
+    }
+    for (name, text, scripts, timeout) in &long {
+        lace.write("long.asm", text.as_bytes());
+        let envs = [("LACE_VERIF_FUEL", "9000000000")];
+        let base = lace.run_timeout(&["run", "long.asm", "--minimal"], b"", &envs, None, *timeout);
+        for script in scripts {
+            acc.eval("cli-long");
+            let run = lace.run_timeout(&["debug", "long.asm", "--minimal", "--command", script], b"", &envs, None, *timeout);
+            if base.timed_out || run.timed_out {
+                acc.skip("long-run-timed-out");
+                continue;
+            }
+            let case = json!({"cli_long": true, "program": name, "source": text, "script": script});
+            if run.status != base.status {
+                acc.violation(format!("C09/cli-long/exit-status/{}", if run.status == 101 { "panic".to_string() } else { format!("{}-vs-{}", run.status, base.status) }), format!("`lace debug --command '{script}'` on {name} exits with {} ({}), `lace run` with {}", run.status, run.err().lines().find(|l| l.contains("panicked")).unwrap_or(""), base.status), case);
+            } else if run.out() != base.out() {
+                acc.violation("C09/cli-long/stdout", format!("stdout under `lace debug --command '{script}'` on {name} differs from `lace run`"), case);
+            } else {
+                acc.nontrivial();
+                acc.outcome(format!("cli-long/{name}/status{}", base.status));
+            }
+        }
+    }
     finish(
         ctx,
         acc,
         Level { category: "model_checking", bfs: Some((stats.states, stats.transitions, stats.transitions * if thorough { 4 } else { 3 }, stats.max_depth)) },
-        "explicit-state BFS over histories of non-mutating commands (step, step into {1,3}, step out, continue, break add/remove absolute and ^1, break list, print register / ^ / xFFFF, registers, assembly, echo, help) on 14 programs (loop, leaving user space through a bare RET / a branch below the origin / a jump to xFFFF, branches, nested JSR/RET, recursive CALL/RETS, HALT in the middle, JSRR + self-branch, self-modifying with output, `.break` in the source with output, running off the end, ending in an exception, executing an unknown trap). Every transition runs history+`quit` and history+end-of-input (thorough: also in non-minimal mode) on the real debugger and compares how the run ends, the final registers/PC/CC/all memory and the program output with the same image run without a debugger; states deduplicated on the paused product digest. Plus every history up to depth 2 (quick, last level stride 3) / 3 through the real binary: exit status and stdout of `lace debug --minimal --command` vs `lace run --minimal`. non-trivial = agreeing transitions / CLI histories",
+        "explicit-state BFS over histories of non-mutating commands (step, step into {1,3}, step out, continue, break add/remove absolute and ^1, break list, print register / ^ / xFFFF, registers, assembly, echo, help) on 14 programs (loop, leaving user space through a bare RET / a branch below the origin / a jump to xFFFF, branches, nested JSR/RET, recursive CALL/RETS, HALT in the middle, JSRR + self-branch, self-modifying with output, `.break` in the source with output, running off the end, ending in an exception, executing an unknown trap). Every transition runs history+`quit` and history+end-of-input (thorough: also in non-minimal mode) on the real debugger and compares how the run ends, the final registers/PC/CC/all memory and the program output with the same image run without a debugger; states deduplicated on the paused product digest. Plus every history up to depth 2 (quick, last level stride 3) / 3 through the real binary: exit status and stdout of `lace debug --minimal --command` vs `lace run --minimal`. Plus long executions through the real binary (5 scripts on a subroutine with 65 536 unpaired calls; thorough: 2 scripts on a program of 2^32 + 229 381 instructions), which drive the debugger's own counters past their widths. non-trivial = agreeing transitions / CLI histories",
         !stats.capped,
         &["program-ends-normally", "program-ends-in-error-exit", "program-prints", "cli-status-0", "cli-status-nonzero"],
         &["differential oracle: the real VM without debugger", "HALT's own banner is printed with println! and is compared through the CLI part only"],
@@ -236,7 +264,18 @@ pub fn run(ctx: &Ctx) -> i32 {
     )
 }
 
+/// 1 + 32769 * 131075 + 1 = 4 295 196 677 instructions (more than 2^32), then HALT.
+const COUNT_OVERFLOW: &str = ".orig x3000\n ld r1, cnt\nouter and r2, r2, #0\ninner add r2, r2, #-1\n brnp inner\n add r1, r1, #-1\n brnp outer\n halt\ncnt .fill x8001\n.end\n";
+
 pub fn replay(ctx: &Ctx, case: &Value) -> Option<Option<String>> {
+    if case["cli_long"].as_bool() == Some(true) {
+        let lace = Lace::new(&ctx.lace_bin, &ctx.scratch);
+        lace.write("r.asm", case["source"].as_str()?.as_bytes());
+        let envs = [("LACE_VERIF_FUEL", "9000000000")];
+        let base = lace.run_timeout(&["run", "r.asm", "--minimal"], b"", &envs, None, 1500);
+        let run = lace.run_timeout(&["debug", "r.asm", "--minimal", "--command", case["script"].as_str()?], b"", &envs, None, 1500);
+        return Some(if run.status != base.status || run.out() != base.out() { Some(format!("status {} vs {}, stdout equal: {}", run.status, base.status, run.out() == base.out())) } else { None });
+    }
     let name = case["program"].as_str()?;
     let hist: Vec<u8> = case["history"].as_array()?.iter().map(|v| v.as_u64().unwrap() as u8).collect();
     let progs = programs09();
